@@ -424,11 +424,16 @@ def colr_glyphs(font: ttLib.TTFont) -> Iterable[int]:
             yield font.getGlyphID(glyph_name)
     else:
         assert colr.version == 1
-        # a version 1 table may hold v0-style records too
+        # a version 1 table may hold v0-style records too, even for a glyph that
+        # also has a BaseGlyphList entry (which then wins)
+        v1_glyphs = [
+            r.BaseGlyph for r in font["COLR"].table.BaseGlyphList.BaseGlyphPaintRecord
+        ]
         for glyph_name in _colr_v0_records(font):
+            if glyph_name not in v1_glyphs:
+                yield font.getGlyphID(glyph_name)
+        for glyph_name in v1_glyphs:
             yield font.getGlyphID(glyph_name)
-        for base_glyph in font["COLR"].table.BaseGlyphList.BaseGlyphPaintRecord:
-            yield font.getGlyphID(base_glyph.BaseGlyph)
 
 
 def _colr_v0_to_svgs(
